@@ -24,6 +24,13 @@ func build(k int, withDefault bool, ends int, how string) *drv.Graph {
 	g.Link(start, of, nil)
 	joining := 0
 	for i := 1; i <= k; i++ {
+		if how == "direct" && ends&(1<<(i-1)) != 0 {
+			// direct: the branch is a single sequence flow from the fork to the join (its token
+			// arrives while the fork is still announcing its other branches)
+			g.Link(of, oj, drv.Var(fmt.Sprintf("c%d", i)))
+			joining++
+			continue
+		}
 		a := g.Add(drv.Task, fmt.Sprintf("a%d", i))
 		g.Link(of, a, drv.Var(fmt.Sprintf("c%d", i)))
 		if ends&(1<<(i-1)) != 0 {
@@ -117,6 +124,10 @@ func init() {
 					if ends != 0 && k <= 3 {
 						add(scn(k, def, ends, 0, "implicit"))
 						add(scn(k, def, ends, 0, "exit"))
+						add(scn(k, def, ends, 0, "direct"))
+						if k == 2 || thorough {
+							add(scn(k, def, ends, 1, "direct"))
+						}
 					}
 				}
 			}
